@@ -62,7 +62,7 @@ func (cm *Committer) commit(block *hotstuff.Block) error {
 	}
 
 	forkedBlocks := cm.blockchain.PruneToHeight(
-		cm.viewStates.CommittedBlock().View(),
+		cm.viewStates.CommittedBlock(),
 		block.View(),
 	)
 	for _, block := range forkedBlocks {
